@@ -96,6 +96,31 @@ func Programs08(tier string) []Program {
 			}
 		}
 	}
+	// a log whose segments are V1 while new segments are V2 and rewrites keep the version:
+	// the delete has to find out the version of the segment it rewrites
+	v1keep := drv.Cfg{Keys: true, Times: true, Rollover: roll2, Ver: 1}
+	for _, st := range inits[1:] {
+		init := append(append([]string{}, st.init...), "R:v2,keep,noeager")
+		for _, a := range st.calls {
+			if !strings.HasPrefix(a, "Delete") {
+				continue
+			}
+			for _, b := range []string{"Publish:1", "Publish:2", "Delete:0", "Delete:1", "Consume:-2,40", "Get:1"} {
+				add(Program{Cfg: v1keep, Init: init, Threads: [][]string{{a}, {b}}})
+			}
+		}
+	}
+	// AutoSync: every publish and every rewrite fsyncs before it returns
+	as := cfgBoth
+	as.AutoSync = true
+	for _, st := range inits {
+		for _, pr := range [][2]string{{"Publish:1", "Publish:1"}, {"Publish:1", "Publish:2"}, {"Publish:1", "Delete:1"}, {"Publish:1", "Delete:0"}, {"Publish:1", "Sync"}, {"Delete:0", "Delete:1"}, {"Publish:1", "Consume:-2,40"}, {"Delete:1", "Consume:-2,40"}} {
+			if st.next == 0 && strings.Contains(pr[0]+pr[1], "Delete") {
+				continue
+			}
+			add(Program{Cfg: as, Init: st.init, Threads: [][]string{{pr[0]}, {pr[1]}}})
+		}
+	}
 	// two calls in one thread against one call
 	two := [][]string{
 		{"Publish:1", "Publish:1"}, {"Publish:1", "Consume:-2,40"}, {"Delete:0", "Delete:1"}, {"Delete:1", "Publish:1"}, {"Consume:-2,40", "Consume:2,40"},
